@@ -4,7 +4,10 @@ PROP = {
     "runs": [{"tag": "c07", "bin": "c07"},
              # the same scripts with ZERO-SIZED drop-tracked items (a Vec of them has capacity usize::MAX and
              # never allocates): identities are reconstructed from the script order when the counts are right
-             {"tag": "c07tz", "bin": "c07", "args": ["--elem", "tz"]}],
+             {"tag": "c07tz", "bin": "c07", "args": ["--elem", "tz"]},
+             # the truthfully fused scripts once more from a source that carries the FusedIterator marker (std's
+             # Fuse adaptor keeps no flag of its own for such a source: a poll after None reaches it)
+             {"tag": "c07fm", "bin": "c07", "args": ["--elem", "fm"]}],
     "mismatch_is_failing": True,
     "rule": "for N in {0,1,2,3,5,8} (thorough adds 16, 33) x the four forms (try_from_iter, try_boxed_from_iter, collect, boxed collect) x every item count 0..=N+3 x eight hint kinds (exact, loose, absent, too-high lower bound, too-low upper bound, lying) x {plain, a source panic at every poll index, a non-fused None at every position}; plus seeded scripts up to N=1025; everything once with sized drop-tracked items (Tr) and once with zero-sized drop-tracked items (Tz). distinct = distinct CASE lines; non-trivial = N > 0 and the script is non-empty",
     "nontrivial": lambda case, obs: case.split()[1] != "0" and len(case.split()) > 4,
